@@ -93,8 +93,8 @@ def jsonable(d):
 
 
 def small_calculators(ctx):
-    names = ['fcc', 'sq2d', 'rect2d-2site', 'oblique2d', 'hcp'] if ctx.quick else \
-        ['fcc', 'bcc', 'hcp', 'sq2d', 'tri2d', 'honey2d', 'rumpled', 'rect2d-2site', 'oblique2d', 'triclinic']
+    names = ['fcc', 'sq2d', 'rect2d-2site', 'oblique2d', 'hcp', 'twoW'] if ctx.quick else \
+        ['fcc', 'bcc', 'hcp', 'sq2d', 'tri2d', 'honey2d', 'rumpled', 'twoW', 'rect2d-2site', 'oblique2d', 'triclinic']
     return [(n, calculator(n, 1)) for n in names]
 
 
@@ -103,8 +103,10 @@ def monotonicity_oracle(ctx, named_calc):
     name, calc = named_calc
     rng = ctx.rng
     ndata = 2 if ctx.quick else 4      # odd data sets exercise the large-omega2 algorithm
+    multi = len(calc.sitelist) > 1     # several Wyckoff sets: complexes with solute and vacancy on inequivalent sites
+    if multi: ndata *= 3
     for t in range(ndata):
-        d = rand_data(rng, calc)
+        d = rand_data(rng, calc, spread=(1.0 if (not multi or t < 2) else 2.5))
         large = (t % 2 == 1)
         if large:
             d['preT2'] = d['preT2'] * 1e9   # regime of the large-omega2 algorithm
@@ -140,7 +142,8 @@ def monotonicity_oracle(ctx, named_calc):
                 sc = max(abs(L1[idx]).max(), abs(L0[idx]).max(), 1e-300)
                 w = np.linalg.eigvalsh(0.5 * (diff + diff.T))
                 cond = math.exp(min(amt, 40.0)) if which != 'eneT2' else 1.0     # conditioning of a very fast omega0/omega1 class
-                if w.min() < -(1e-7 + 1e-15 * cond) * sc:
+                # exchange rates 1e9 times the others: results carry roundoff of a few 1e-17 x that ratio (finding F31)
+                if w.min() < -(1e-7 + 1e-15 * cond + (1e-6 if large else 0.0)) * sc:
                     os_tag = 'originstates' if len(calc.OSindices) > 0 else 'no-originstates'
                     ctx.violation('vacancy-decreases:%s:%s:%s:%s' % (lab, os_tag, which, name),
                                   '%s decreased (min eigenvalue of change %.3g, scale %.3g) when %s[%d] was lowered by %g on %s'
